@@ -1952,6 +1952,13 @@ class _FormatInferInstance(Visitor):
             zeros: set[SetValue] = {Fraction(0)}
             if cand.has_neg_zero:
                 zeros.add(NEG_ZERO)
+            # "no non-zero finite value" says nothing about the special ones
+            if cand.has_pos_inf:
+                zeros.add(Special.POS_INF)
+            if cand.has_neg_inf:
+                zeros.add(Special.NEG_INF)
+            if cand.has_nan:
+                zeros.add(Special.NAN)
             return SetFormat(frozenset(zeros))
         mat = cand.format()
         if (isinstance(mat, AbstractableFormat)
